@@ -168,7 +168,7 @@ func replay(in, out string, fault ph.Fault) {
 
 type xinst struct {
 	svc, id, node string
-	ver           int
+	ver           string
 	schk          map[string]string
 }
 type xnode struct {
@@ -241,11 +241,11 @@ func (g *gen) mutate(p string) {
 		w.node(g, n)
 		for _, i := range w.insts {
 			if i.id == id && i.node == n {
-				i.ver = 1 + g.r.Intn(3)
+				i.ver = g.pick([]string{"1", "2", "3"})
 				return
 			}
 		}
-		w.insts = append(w.insts, &xinst{svc: svc, id: id, node: n, ver: 1 + g.r.Intn(3), schk: map[string]string{}})
+		w.insts = append(w.insts, &xinst{svc: svc, id: id, node: n, ver: g.pick([]string{"1", "2", "3"}), schk: map[string]string{}})
 	case k < 6: // remove an instance
 		if len(w.insts) > 0 {
 			i := g.r.Intn(len(w.insts))
@@ -337,7 +337,7 @@ func (g *gen) seedRows() M {
 			for _, s := range g.svcs {
 				if g.r.Intn(2) == 0 {
 					id := s + "-1"
-					svcs = append(svcs, M{"peer": p, "node": n, "id": id, "name": s, "ver": 7})
+					svcs = append(svcs, M{"peer": p, "node": n, "id": id, "name": s, "ver": "7"})
 					chks = append(chks, M{"peer": p, "node": n, "cid": id + ":a", "sid": id, "st": "passing"})
 				}
 			}
@@ -348,7 +348,7 @@ func (g *gen) seedRows() M {
 
 func (g *gen) behaviour(length int) []M {
 	g.worlds = map[string]*xworld{}
-	beh := []M{{"t": "seed", "rows": g.seedRows()}}
+	beh := []M{{"t": "seed", "rows": g.seedRows(), "gw": g.r.Intn(2) == 0}}
 	for len(beh) < length {
 		p := g.pick(g.peers)
 		for k := g.r.Intn(4); k >= 0; k-- {
